@@ -159,6 +159,29 @@ Proof.
   apply snap_okb_sound. exact H1.
 Qed.
 
+Lemma latest_map_pend f pend : forall (m : gmap (list (string * string)) alert),
+  foldl (fun m a => <[a_lbls a := a]> m) m pend !! f = foldl (upd1 f) (m !! f) pend.
+Proof.
+  induction pend as [|p pend IH]; intros m; simpl; [reflexivity|]. rewrite IH. f_equal. unfold upd1.
+  case_bool_decide as Hp; [subst f; apply lookup_insert|apply lookup_insert_ne; exact Hp].
+Qed.
+
+Lemma latest_map_gen h f : forall (m : gmap (list (string * string)) alert),
+  foldl (fun m x => match snd x with
+                    | OProcess a => <[a_lbls a := a]> m
+                    | ORestart _ pend => foldl (fun m a => <[a_lbls a := a]> m) m pend
+                    | _ => m
+                    end) m h !! f = foldl (upd_latest f) (m !! f) h.
+Proof.
+  induction h as [|x h IH]; intros m; simpl; [reflexivity|]. rewrite IH. f_equal. unfold upd_latest.
+  destruct (snd x) as [a|sel| |snap pend]; try reflexivity.
+  - unfold upd1. case_bool_decide as Hp; [subst f; apply lookup_insert|apply lookup_insert_ne; exact Hp].
+  - apply latest_map_pend.
+Qed.
+
+Lemma latest_map_lookup h f : latest_map h !! f = latest h f.
+Proof. unfold latest_map, latest. rewrite latest_map_gen, lookup_empty. reflexivity. Qed.
+
 Lemma eqkey_eq_on c s t : eqkey c s = eqkey c t <-> eq_on (r_equal c) s t.
 Proof. unfold eqkey, eq_on. apply map_ext_in_iff. Qed.
 
